@@ -20,6 +20,7 @@ void verif_note(const char* text);
 void ir2c_global_ctors(void);
 // file system helpers on the engine's in-memory VFS / the real scratch directory natively
 unsigned long verif_file_size(const char* path);             // (unsigned long)-1 if missing
+unsigned long verif_file_hash(const char* path);             // content hash, (unsigned long)-1 if missing
 void verif_vfs_freeze(int on);                               // while on, no stdio/unistd mutation persists ("the process is dead")
 long verif_vfs_events(void);                                 // number of persistence events so far
 void verif_vfs_die_after(long n);                            // the simulated process dies right after the n-th persistence event from now
@@ -29,7 +30,10 @@ void verif_expect_fatal(int on);
 // what the code under test writes to stdout from now on is captured (natively: fd 1 is redirected to a temporary file)
 void verif_stdout_capture(void);
 long verif_stdout_len(void);
-long verif_stdout_copy(char* buf, long cap);                             // Fatal() is expected by the harness (ends the path quietly)
+long verif_stdout_copy(char* buf, long cap);
+long verif_stderr_copy(char* buf, long cap);                             // what was written to stderr since verif_stdout_capture()
+// runs fn(arg); an exit(code) inside it flushes stdio and unwinds to the caller (no destructors, as in a real exit): returns code, or -1 if fn returned
+long verif_call_catching_exit(void (*fn)(void*), void* arg);
 }
 #define VERIF_ASSERT(c, msg) __CPROVER_assert((c), msg)
 #define VERIF_ASSUME(c) __CPROVER_assume((c))
